@@ -431,6 +431,7 @@ def run(ctx):
                 if shapes["C"][k_] != shapes["Python"][k_]:
                     ob5.refute("emitters-differ:%s" % k_, "C and Python emitters differ in %s: %s vs %s" % (k_, shapes["C"][k_], shapes["Python"][k_]), None)
     lpddr5_frange(ctx, m)
+    phy_wrappers(ctx)
     ctx.assume("reference tables in /verif/refdata/mode_registers.json were transcribed by hand from the JEDEC documents cited there")
 
 
@@ -498,3 +499,79 @@ def lpddr5_frange(ctx, m):
                            (ratio, seen[proj], i, dict(proj), (rows[seen[proj]]["mr"], rows[seen[proj]]["n_wr_op"]), (r_["mr"], r_["n_wr_op"])), (m.rel(), fn.lineno))
             seen.setdefault(proj, i)
         ob6.instance("WCK:CK %s:1 table" % ratio, {"rows": len(rows), "distinct keys": len(seen)})
+
+
+
+def _simp_none(t):
+    """fold `x is None` / `x is not None` where x is a join of non-None constants, and the if-expressions that test it"""
+    if not isinstance(t, Op):
+        return t
+    a = tuple(_simp_none(x) for x in t.args)
+    if t.op in ("is", "isnot") and len(a) == 2 and isinstance(a[1], Const) and a[1].v is None:
+        leaves = []
+
+        def arms(x):
+            if isinstance(x, Op) and x.op in ("phi", "ifexp"):
+                arms(x.args[1]); arms(x.args[2])
+            else:
+                leaves.append(x)
+        arms(a[0])
+        if leaves and all(isinstance(x, Const) and x.v is not None for x in leaves):
+            return Const(t.op == "isnot")
+        if leaves and all(isinstance(x, Const) and x.v is None for x in leaves):
+            return Const(t.op == "is")
+    if t.op in ("phi", "ifexp") and isinstance(a[0], Const) and isinstance(a[0].v, bool):
+        return a[1] if a[0].v else a[2]
+    return Op(t.op, a)
+
+
+def phy_wrappers(ctx):
+    """C17.7: a PHY that wraps another PHY (half-rate around full-rate, quarter-rate around half-rate) publishes in ITS PhySettings - which is what the
+    initialisation code reads - the CAS (write) latency the INNER PHY really operates with."""
+    import glob as _g
+    ob7 = ctx.ob("C17.7", "a PHY built around another PHY publishes the same CL / CWL in its PhySettings as the inner PHY was built with (the init sequence programs the "
+                          "published value into the mode register, the inner PHY times its data path with its own)", 1)
+    root = ctx.repo.root if hasattr(ctx.repo, "root") else os.environ.get("LSA_REPO", "/repo")
+    n = 0
+    for f in sorted(_g.glob(os.path.join(root, "litedram", "phy", "*.py"))):
+        src = open(f).read()
+        if "PhySettings(" not in src:
+            continue
+        mod = "litedram.phy." + os.path.basename(f)[:-3]
+        pm = ctx.repo.module(mod)
+        if pm is None:
+            continue
+        for cname, cnode in pm.classes.items():
+            seg = ast.get_source_segment(src, cnode) or ""
+            if "PhySettings(" not in seg:
+                continue
+            init = [b for b in cnode.body if isinstance(b, ast.FunctionDef) and b.name == "__init__"]
+            if not init:
+                continue
+            formals = [a.arg for a in init[0].args.args][1:]
+            kw = {a_: (Const(None) if a_ in ("cl", "cwl") else Sym(a_)) for a_ in formals if a_ in ("sys_clk_freq", "cl", "cwl")}
+            kw["pads"] = pobj("pads")
+            try:
+                v = elab(ctx, mod, cname, kwargs=kw)
+            except Exception as e:       # a PHY the elaborator cannot read is no evidence either way
+                ctx.notes.append("C17.7: %s.%s not elaborated (%s)" % (mod, cname, str(e)[:80]))
+                continue
+            own = [o for o in v.d.objs if o.cls == "PhySettings" and (o.path or "").count(".") == 0 and not (o.path or "").startswith(tuple(
+                (i.path or "~") + "." for i in v.d.instances.values() if i.path))]
+            inner = [o for o in v.d.objs if o.cls == "PhySettings" and o not in own]
+            if len(own) != 1 or not inner:
+                continue
+            for io in inner:
+                n += 1
+                for fld in ("cl", "cwl"):
+                    a_, b_ = own[0].kwargs.get(fld), io.kwargs.get(fld)
+                    if a_ is None or b_ is None:
+                        continue
+                    ka, kb = key(_simp_none(a_)), key(_simp_none(b_))
+                    ob7.instance("%s.%s around %s: %s" % (mod.split(".")[-1], cname, io.path, fld), {"published": ka[:160], "inner": kb[:160]})
+                    if ka != kb:
+                        ob7.refute("wrapper-%s:%s" % (fld, cname), "%s publishes %s = %s in its PhySettings but the PHY it wraps (%s) is built with %s = %s: for the clock range in "
+                                   "which the two differ the mode register is programmed with one latency and the data path is timed with the other" %
+                                   (cname, fld, ka[:200], io.path, fld, kb[:200]), own[0].loc)
+    if n == 0:
+        ob7.unknown("no PHY wrapper (a PHY class instantiating another PHY with its own PhySettings) found")
